@@ -51,6 +51,7 @@ func sigdbInit() {
 	// PEM as tools emit it: explanatory text / blank line in front of the BEGIN line (RFC 7468 allows it)
 	add("p1b", append([]byte("Bag Attributes\n    friendlyName: verif\nsubject=CN = verif\n\n"), sigdbData["p1"].bytes...), "c1")
 	add("p3n", append([]byte("\n"), sigdbData["p3"].bytes...), "c3")
+	add("e1", []byte{0x5e}, "e1")
 	add("s1", prbytes("s1", 20), "s1")
 	add("u1", prbytes("u1", 40), "u1")
 }
